@@ -21,10 +21,16 @@ func copyXAttrs(dst, src string, xeh XAttrErrorHandler) error {
 	for _, xattr := range xattrKeys {
 		data, err := sysx.LGetxattr(src, xattr)
 		if err != nil {
-			return xeh(dst, src, xattr, errors.Wrapf(err, "failed to get xattr %q on %s", xattr, src))
+			// a failure the handler tolerates skips this attribute only
+			if err := xeh(dst, src, xattr, errors.Wrapf(err, "failed to get xattr %q on %s", xattr, src)); err != nil {
+				return err
+			}
+			continue
 		}
 		if err := sysx.LSetxattr(dst, xattr, data, 0); err != nil {
-			return xeh(dst, src, xattr, errors.Wrapf(err, "failed to set xattr %q on %s", xattr, dst))
+			if err := xeh(dst, src, xattr, errors.Wrapf(err, "failed to set xattr %q on %s", xattr, dst)); err != nil {
+				return err
+			}
 		}
 	}
 
